@@ -124,7 +124,9 @@ def eval_validation(fx, v, depth=0):
         v = v.kids[0]
     if v.kind == "call" and v.d["term"].get("name") == "clone" and v.kids:
         return eval_validation(fx, v.kids[0], depth + 1)
-    if depth > 40:
+    if v.kind == "alias" and v.kids:
+        return eval_validation(fx, v.kids[0], depth + 1)
+    if depth > 14:
         st = _copy(DEFAULTS)
         st["created"] = False
         return [st]
